@@ -21,6 +21,7 @@ import (
 	"github.com/imroc/req/v3/internal/testcert"
 	"github.com/imroc/req/v3/internal/transport"
 	"github.com/imroc/req/v3/internal/verifh"
+	"github.com/quic-go/quic-go"
 	refh3 "github.com/quic-go/quic-go/http3"
 )
 
@@ -124,6 +125,22 @@ func TestVerif_C05_h3e2e(t *testing.T) {
 		go srv.Serve(pc)
 		addr := pc.LocalAddr().String()
 		rt := &RoundTripper{Options: &transport.Options{TLSClientConfig: &tls.Config{InsecureSkipVerify: true}}, EnableDatagrams: cfg.cliDG, AdditionalSettings: cfg.cliOther}
+		// dial ourselves so that the lane does not depend on how the round tripper finds its TLS
+		// configuration (that is C12's subject): the test certificate is accepted here
+		cliConn, err := net.ListenUDP("udp", &net.UDPAddr{IP: net.IPv4(127, 0, 0, 1)})
+		if err != nil {
+			t.Fatalf("listen: %v", err)
+		}
+		qtr := &quic.Transport{Conn: cliConn}
+		rt.Dial = func(ctx context.Context, a string, tlsCfg *tls.Config, qc *quic.Config) (quic.EarlyConnection, error) {
+			ua, err := net.ResolveUDPAddr("udp", a)
+			if err != nil {
+				return nil, err
+			}
+			tc := tlsCfg.Clone()
+			tc.InsecureSkipVerify = true
+			return qtr.DialEarly(ctx, ua, tc, qc)
+		}
 		do := func(method, path string, hdr http.Header, body []byte, unknownLen bool) (*http.Response, []byte, error) {
 			var rd io.Reader
 			if body != nil {
@@ -268,6 +285,8 @@ func TestVerif_C05_h3e2e(t *testing.T) {
 			s.Observe(id, ok, "", true, id, detail)
 		}
 		rt.Close()
+		qtr.Close()
+		cliConn.Close()
 		srv.Close()
 		pc.Close()
 	}
